@@ -2,5 +2,6 @@ pub mod core;
 pub mod engine;
 pub mod findings;
 pub mod node;
+pub mod progen;
 pub mod props;
 pub mod tape;
